@@ -310,6 +310,57 @@ def run_shard(arg):
     return part.result()
 
 
+def run_references(_):
+    """the restricting feature applies to a clock through a reference: a function's or a template's `clock &` / `hybrid clock &`
+    parameter bound to a non-hybrid clock (expected: symbolic analysis not supported) or to a hybrid clock (control)"""
+    part = engine.Part()
+    w = engine.worker("fast")
+    g = G0 + " clock gx; hybrid clock gh; clock gxs[2];"
+    cells = []
+    for K in ("", "hybrid "):
+        kid = "hybrid-reference" if K else "clock-reference"
+        fdecl = {"assign-literal": "void set(%sclock &r) { r = 1.5; }" % K, "assign-double-variable": "void set(%sclock &r) { r = d; }" % K,
+                 "assign-in-branch": "void set(%sclock &r) { if (i > 0) { r = 0; } else { r = 2.5; } }" % K,
+                 "assign-through-second-function": "void set0(%sclock &q) { q = 1.5; } void set(%sclock &r) { set0(r); }" % (K, K)}
+        for fid, fd in fdecl.items():
+            for aid, arg, hybrid in (("local-clock", "x", False), ("local-hybrid-clock", "h", True), ("global-clock", "gx", False),
+                                     ("global-hybrid-clock", "gh", True), ("clock-array-element", "gxs[1]", False)):
+                doc = X.nta(g + " " + fd, [T("T", assign="set(%s)" % arg), T("U1")], "P = T(); Q = U1(); system P, Q;")
+                cells.append(("%s:function:%s:%s" % (kid, fid, aid), hybrid, doc))
+        for fid, kw in (("assign-literal", dict(assign="r = 1.5")), ("assign-double-variable", dict(assign="r = d")),
+                        ("rate-2", dict(inv="r' == 2")), ("rate-2-in-conjunction", dict(inv="r <= 5 && r' == 2 && i >= 0")),
+                        ("rate-0.5", dict(inv="r' == 0.5"))):
+            for aid, arg, hybrid in (("global-clock", "gx", False), ("global-hybrid-clock", "gh", True), ("clock-array-element", "gxs[0]", False)):
+                for sid, system in (("direct", "P = T(%s); Q = U1(); system P, Q;" % arg),
+                                    ("through-partial-instance", "I(%sclock &c) = T(c); P = I(%s); Q = U1(); system P, Q;" % (K, arg))):
+                    doc = X.nta(g, [T("T", params="%sclock &r" % K, **kw), T("U1")], system)
+                    cells.append(("%s:template-parameter:%s:%s:%s" % (kid, fid, aid, sid), hybrid, doc))
+    res = X.run_docs(w, [c[2] for c in cells], want=["noinv"], batch=50)
+    for (key, hybrid, doc), r in zip(cells, res):
+        part.count()
+        rp = {"op": "xml", "buf": doc}
+        if engine.check_crash(part, PID, r, key, rp):
+            continue
+        if r.get("exc") is not None:
+            part.outcome("exception")
+            part.violation("exception:%s:%s" % (key, r["exc"]), "%s: parsing throws %s" % (key, r["exc"]), rp)
+            continue
+        if not X.accepted(r):
+            part.outcome("not-accepted")
+            continue
+        part.nontrivial_case("reference:" + key)
+        sym = r["methods"]["symbolic"]
+        if hybrid:
+            part.outcome("control:reference-to-hybrid-clock:symbolic=%s" % sym)
+        elif sym:
+            part.outcome("restricted-method-reported-supported")
+            part.violation("supported-despite:through-%s:symbolic" % key, "%s: a non-hybrid clock gets a floating-point value or a rate other than 0/1 through "
+                           "the reference, symbolic analysis is reported as supported" % key, rp)
+        else:
+            part.outcome("restriction-reported")
+    return part.result()
+
+
 def main():
     total = sum(1 for _ in features())
     rep = engine.Report(PID, "exploration",
@@ -323,6 +374,7 @@ def main():
     n = engine.ncpu()
     for res in engine.pmap(run_shard, [(i, n) for i in range(n)]):
         rep.merge(res)
+    rep.merge(run_references(None))
     rep.assumptions = ["the reference verdict is the feature flag the generator set (R7); only the statement's 'only if' direction and the "
                        "two invariance clauses are demanded"]
     sys.exit(rep.finish())
